@@ -6,6 +6,7 @@ CONSTANTS
   MaxLen = 4
   MaxResets = 1
   KeepHist = FALSE
+  WithSnap = FALSE
 CONSTRAINT Bound
 PROPERTY LoopTerminates
 CHECK_DEADLOCK FALSE
